@@ -67,7 +67,12 @@ def harnesses(ctx, tier):
         hs.append(Harness(name="H4_" + what, src="c04/iter.c", defines=["-DVF_MODE=%d" % m], unwind=12, timeout=300, unwind_funcs={"yr_arena_ptr_to_ref": 3},
                           desc="%s through the real VM vs the documented quantifier semantics" % what,
                           bounds="all quantifier values incl. undefined (all) and 0 (none); counters < 2^40", functions=EXEC_FUNCS, stubs=EXEC_STUBS))
+    hs.append(Harness(name="H5_string_operators", src="c04/strops.c", unwind=6, timeout=600, unwind_funcs={"main": 258},
+                      desc="contains/icontains/startswith/istartswith/endswith/iendswith/iequals and string comparison (sizedstr.c) on two arbitrary sized strings",
+                      bounds="both strings 0..3 bytes, all byte values incl. NUL", functions=["ss_contains", "ss_icontains", "ss_startswith", "ss_istartswith", "ss_endswith", "ss_iendswith", "ss_compare", "ss_icompare"],
+                      stubs=["memmem contract model", "yr_lowercase table"]))
     return hs
+
 
 
 
